@@ -35,6 +35,8 @@ enum Step {
 	Clog(usize),
 	/// an ordinary call that takes 300 ms: a stop that lands meanwhile has to wait for it while the connection drains
 	SlowCall(usize),
+	/// the last connection is opened only now
+	LateConnect,
 }
 
 #[derive(Debug, Clone)]
@@ -111,6 +113,10 @@ async fn scenario(prop: u32) {
 	let buf_cap = *rt::pick("buf_cap", &[1024u32, 1, 2, 4]);
 	let cap = *rt::pick("cap", &[1024u32, 0, 1, 2, 3]);
 	let n_conns = rt::draw_range("n_conns", 1, 2) as usize;
+	// a connection that is opened in the middle of the history, after another one has gone: whatever the server keys
+	// by connection must not confuse the newcomer with anybody else
+	let late_conn = !sweep_base && rt::param("fault_at").is_none() && rt::chance("late_connection", 1, 4);
+	let n_conns = if late_conn { n_conns + 1 } else { n_conns };
 	let collide = n_conns == 2 && rt::chance("collide", 1, 3);
 	// reuse mode: an id that was freed by a successful unsubscribe is dealt again to the next subscription on that
 	// connection (an id provider is free to do that)
@@ -155,6 +161,16 @@ async fn scenario(prop: u32) {
 			i += 1;
 		}
 	}
+	if late_conn {
+		// ... after connection 0 has gone (half of the time), somewhere in the second half of the history
+		let at = steps.len() / 2 + rt::draw("late_at", (steps.len() / 2 + 1) as u32) as usize;
+		let at = at.min(steps.len());
+		steps.insert(at, Step::LateConnect);
+		if rt::chance("late_after_disconnect", 1, 2) {
+			steps.insert(at, Step::Settle);
+			steps.insert(at, Step::Disconnect(0));
+		}
+	}
 	if clogged_mode {
 		// the peer of connection 0 stops reading and the write path fills up before anything else happens
 		steps.insert(0, Step::PauseReader(0));
@@ -183,30 +199,15 @@ async fn scenario(prop: u32) {
 	// ---------------- connections ----------------
 	let mut conns: Vec<Conn> = Vec::new();
 	for ci in 0..n_conns {
-		let (end, ctl) = world.connect(&format!("ws{ci}"));
-		match world::ws_handshake(end).await {
-			WsOpen::Open(tx, mut rx) => {
-				let frames: Arc<Mutex<Vec<Frame>>> = Arc::default();
-				let f2 = frames.clone();
-				let paused = Arc::new(std::sync::atomic::AtomicBool::new(false));
-				let p2 = paused.clone();
-				let reader = rt::spawn("ws-reader", async move {
-					loop {
-						while p2.load(std::sync::atomic::Ordering::Relaxed) {
-							tokio::time::sleep(Duration::from_millis(2)).await;
-						}
-						let Some(f) = world::ws_recv(&mut rx).await else { break };
-						let text = String::from_utf8_lossy(&f).to_string();
-						let st = rt::event("ws-frame", format!("c{ci} {}", text.chars().take(300).collect::<String>()));
-						let mut g = f2.lock().unwrap();
-						let idx = g.len();
-						g.push(Frame { stamp: st, idx, v: serde_json::from_str(&text).unwrap_or(Value::String(text)) });
-					}
-					rt::event("ws-reader-eof", format!("c{ci}"));
-				});
-				conns.push(Conn { tx: Some(tx), ctl, frames, reader: Some(reader), peer_closed: None, paused });
-			}
-			_ => {
+		if late_conn && ci + 1 == n_conns {
+			// opened later, by the LateConnect step
+			let (_a, _b, ctl) = super::stream::pair("not-yet-connected", frag);
+			conns.push(Conn { tx: None, ctl, frames: Arc::default(), reader: None, peer_closed: None, paused: Arc::default() });
+			continue;
+		}
+		match open_conn(&mut world, ci).await {
+			Some(c) => conns.push(c),
+			None => {
 				rt::violate(if prop == 4 { "C04" } else { "C06" }, "handshake-failed", "ws", "WebSocket handshake failed on a fresh server");
 				return;
 			}
@@ -331,6 +332,16 @@ async fn scenario(prop: u32) {
 					}
 				}
 			}
+			Step::LateConnect => {
+				let ci = n_conns - 1;
+				if conns[ci].tx.is_none() && conns[ci].peer_closed.is_none() && stop_stamp.is_none() {
+					rt::event("dir-late-connect", format!("c{ci}"));
+					rt::probe("late_connection");
+					if let Some(c) = open_conn(&mut world, ci).await {
+						conns[ci] = c;
+					}
+				}
+			}
 			Step::SlowCall(c) => {
 				if let Some(tx) = conns[*c].tx.as_mut() {
 					rt::event("dir-slow-call", format!("c{c}"));
@@ -397,6 +408,34 @@ async fn scenario(prop: u32) {
 		c.tx = None;
 	}
 	world.drop_stop_handle();
+}
+
+async fn open_conn(world: &mut World, ci: usize) -> Option<Conn> {
+	let (end, ctl) = world.connect(&format!("ws{ci}"));
+	match world::ws_handshake(end).await {
+		WsOpen::Open(tx, mut rx) => {
+			let frames: Arc<Mutex<Vec<Frame>>> = Arc::default();
+			let f2 = frames.clone();
+			let paused = Arc::new(std::sync::atomic::AtomicBool::new(false));
+			let p2 = paused.clone();
+			let reader = rt::spawn("ws-reader", async move {
+				loop {
+					while p2.load(std::sync::atomic::Ordering::Relaxed) {
+						tokio::time::sleep(Duration::from_millis(2)).await;
+					}
+					let Some(f) = world::ws_recv(&mut rx).await else { break };
+					let text = String::from_utf8_lossy(&f).to_string();
+					let st = rt::event("ws-frame", format!("c{ci} {}", text.chars().take(300).collect::<String>()));
+					let mut g = f2.lock().unwrap();
+					let idx = g.len();
+					g.push(Frame { stamp: st, idx, v: serde_json::from_str(&text).unwrap_or(Value::String(text)) });
+				}
+				rt::event("ws-reader-eof", format!("c{ci}"));
+			});
+			Some(Conn { tx: Some(tx), ctl, frames, reader: Some(reader), peer_closed: None, paused })
+		}
+		_ => None,
+	}
 }
 
 struct View<'a> {
